@@ -50,6 +50,14 @@ func FillUTF8(p []byte, seed uint32) {
 	i := 0
 	for i < len(p) {
 		x = x*6364136223846793005 + 1442695040888963407
+		if (x>>20)%8 == 0 && len(p)-i >= 12 {
+			// A run of ASCII (8..23 bytes) in front of whatever comes next.
+			for k, run := 0, 8+int((x>>24)%16); k < run && i < len(p)-2; k++ {
+				p[i] = byte('a' + (x>>uint(28+k%8))%26)
+				i++
+			}
+			continue
+		}
 		ru := validRunes[(x>>33)%uint64(len(validRunes))]
 		n := utf8.RuneLen(ru)
 		if i+n > len(p) {
